@@ -809,9 +809,10 @@ impl Obs {
 }
 
 fn child_deep(depth: i64, family: &str) {
-    // runs in the child process: default limits, deep non-tail recursion
+    // runs in the child process, on the main thread (default 8 MB native stack), default limits
     let vm = new_vm();
-    let p = prog(if family == "mutual" { "nontail-mutual" } else if family == "list" { "alloc-nontail-list" } else { "nontail-direct" }, depth, 1);
+    let fam = FAMILIES.iter().find(|f| **f == family).cloned().unwrap_or("nontail-direct");
+    let p = prog(fam, depth, 1);
     match vm.run_expr::<i64>("deep", &p.src) {
         Ok((v, _)) => println!("RESULT value {} expected {}", v, p.expected),
         Err(e) => println!("RESULT error {:?}", classify_err(&e)),
@@ -1197,23 +1198,28 @@ fn real_main(args: Args) {
 
     // C4: deep non-tail recursion with default limits, in a child process
     let mut deep_runs = vec![];
-    let deep: &[(i64, &str)] = if thorough { &[(100_000, "direct"), (1_000_000, "direct"), (300_000, "mutual"), (300_000, "list"), (3_000_000, "direct")] } else { &[(100_000, "direct"), (1_000_000, "direct"), (200_000, "mutual"), (200_000, "list")] };
+    let deep: &[(i64, &str)] = if thorough {
+        &[(100_000, "nontail-direct"), (1_000_000, "nontail-direct"), (3_000_000, "nontail-direct"), (300_000, "nontail-mutual"), (300_000, "nontail-over-application"),
+          (100_000, "alloc-nontail-list"), (400_000, "alloc-nontail-list"), (1_000_000, "alloc-list"), (1_000_000, "cps-closures")]
+    } else {
+        &[(100_000, "nontail-direct"), (1_000_000, "nontail-direct"), (200_000, "nontail-mutual"), (400_000, "alloc-nontail-list"), (1_000_000, "alloc-list")]
+    };
     for (depth, fam) in deep {
         let t0 = Instant::now();
         let (code, sig, out, timed_out) = spawn_child(&["child-deep".to_string(), depth.to_string(), fam.to_string()], Duration::from_secs(if thorough { 600 } else { 120 }));
         obs.evaluations += 1;
         obs.hist.add("deep-child:runs");
-        let case = serde_json::json!({"family": format!("deep-nontail-{}", fam), "depth": depth, "child": true});
+        let case = serde_json::json!({"family": fam, "depth": depth, "child": true, "program_template": prog(FAMILIES.iter().find(|f| *f == fam).cloned().unwrap_or("nontail-direct"), 3, 1).src.replace(" 3", " <depth>")});
         let line = out.lines().find(|l| l.starts_with("RESULT")).unwrap_or("").to_string();
         deep_runs.push(serde_json::json!({"depth": depth, "family": fam, "exit": code, "signal": sig, "result": line, "timed_out": timed_out, "ms": t0.elapsed().as_millis() as u64}));
         if let Some(s) = sig {
-            obs.fail("native-stack:signal", format!("non-tail recursion of depth {} ({}) with default limits killed the process with signal {}", depth, fam, s), case, "value or StackOverflow/OutOfMemory error".into(), format!("signal {} {}", s, out));
+            obs.fail(&format!("native-stack:signal:{}", fam), format!("program of family {} (depth / length {}) with default limits killed the process with signal {} (native stack overflow is reported as SIGABRT/SIGSEGV)", fam, depth, s), case, "value or StackOverflow/OutOfMemory error".into(), format!("signal {} {}", s, out));
         } else if timed_out {
-            obs.fail("native-stack:timeout", format!("non-tail recursion of depth {} ({}) did not finish before the watchdog", depth, fam), case, "value or limit error".into(), "timeout".into());
+            obs.fail(&format!("native-stack:timeout:{}", fam), format!("program of family {} (depth {}) did not finish before the watchdog", fam, depth), case, "value or limit error".into(), "timeout".into());
         } else if code != Some(0) {
-            obs.fail("native-stack:abort", format!("non-tail recursion of depth {} ({}) ended the process with exit code {:?}", depth, fam, code), case, "value or limit error".into(), format!("exit {:?} {}", code, out));
+            obs.fail(&format!("native-stack:abort:{}", fam), format!("program of family {} (depth {}) ended the process with exit code {:?}", fam, depth, code), case, "value or limit error".into(), format!("exit {:?} {}", code, out));
         } else if !(line.starts_with(&format!("RESULT value {} ", depth)) || line.contains("StackOverflow") || line.contains("OutOfMemory")) {
-            obs.fail("native-stack:wrong-result", format!("deep recursion ({} {}) answered `{}`", fam, depth, line), case, format!("value {}", depth), line.clone());
+            obs.fail(&format!("native-stack:wrong-result:{}", fam), format!("deep recursion ({} {}) answered `{}`", fam, depth, line), case, format!("value {}", depth), line.clone());
         }
     }
     // C5: interrupts
@@ -1315,7 +1321,7 @@ fn replay(path: &str, hdr: usize) {
         println!("expected(model): {}", v["expected"]);
     } else if case["child"].as_bool() == Some(true) {
         let depth = case["depth"].as_i64().unwrap_or(100000);
-        let fam = case["family"].as_str().unwrap_or("").rsplit('-').next().unwrap_or("direct").to_string();
+        let fam = case["family"].as_str().unwrap_or("nontail-direct").to_string();
         let r = spawn_child(&["child-deep".to_string(), depth.to_string(), fam], Duration::from_secs(300));
         println!("child: exit {:?} signal {:?} timed_out {} output {}", r.0, r.1, r.3, r.2);
     } else if let Some(f) = case["family"].as_str() {
